@@ -18,6 +18,7 @@ import (
 )
 
 type inv struct {
+	canon  string
 	envID  string
 	sid    string
 	remote string
@@ -48,26 +49,34 @@ func assigned(name string) lime.Node {
 	return lime.Node{Identity: lime.Identity{Name: name, Domain: "reg.test"}, Instance: "r-" + name}
 }
 
-func body(n int, mixed bool) func(x *harness.X) {
+func body(n int, mixed, intruder bool) func(x *harness.X) {
 	return func(x *harness.X) {
 		lib.Reset()
 		s := &st{reg: map[string]string{}, estCb: map[string]string{}}
 		x.Vars["st"] = s
-		rec := func(ctx context.Context, id string) {
+		rec := func(ctx context.Context, id string, env interface{}) {
 			sid, ok1 := lime.ContextSessionID(ctx)
 			rn, ok2 := lime.ContextSessionRemoteNode(ctx)
 			ln, ok3 := lime.ContextSessionLocalNode(ctx)
-			s.invs = append(s.invs, inv{envID: id, sid: sid, remote: rn.String(), local: ln.String(), okCtx: ok1 && ok2 && ok3})
+			s.invs = append(s.invs, inv{canon: lib.Canon(env), envID: id, sid: sid, remote: rn.String(), local: ln.String(), okCtx: ok1 && ok2 && ok3})
 			x.Obs("handler %s sid-known=%v remote=%s", id, ok1, rn.String())
 		}
 		mux := &lime.EnvelopeMux{}
 		mux.MessageHandlerFunc(nil, func(ctx context.Context, m *lime.Message, snd lime.Sender) error {
-			rec(ctx, m.ID)
+			rec(ctx, m.ID, m)
 			return snd.SendNotification(ctx, lib.Not(m.ID, lime.NotificationEventReceived))
 		})
 		mux.RequestCommandHandlerFunc(nil, func(ctx context.Context, c *lime.RequestCommand, snd lime.Sender) error {
-			rec(ctx, c.ID)
+			rec(ctx, c.ID, c)
 			return snd.SendResponseCommand(ctx, lib.Resp(c.ID))
+		})
+		mux.NotificationHandlerFunc(nil, func(ctx context.Context, n *lime.Notification) error {
+			rec(ctx, n.ID, n)
+			return nil
+		})
+		mux.ResponseCommandHandlerFunc(nil, func(ctx context.Context, c *lime.ResponseCommand, snd lime.Sender) error {
+			rec(ctx, c.ID, c)
+			return nil
 		})
 		cfg := lime.NewServerConfig()
 		cfg.Node = lib.ServerNode
@@ -93,6 +102,15 @@ func body(n int, mixed bool) func(x *harness.X) {
 		srv := lime.NewServer(cfg, mux, ls...)
 		go func() { _ = srv.ListenAndServe() }()
 		rt.BeginExplore()
+		if intruder {
+			// a third party whose connection carries an object that fails typed decoding after
+			// several of its members were read; it never gets a session
+			go func() {
+				conn := pl.Dial()
+				_, _ = conn.Write([]byte(`{"id":"evil","to":"victim@reg.test/v","pp":"evil@reg.test/e","metadata":{"injected":"yes"},"event":"bogus"}` + "\n"))
+				x.Obs("intruder wrote its object")
+			}()
+		}
 		names := []string{"alice", "bob", "carol"}[:n]
 		for i, name := range names {
 			c := &cli{name: name}
@@ -209,6 +227,13 @@ func final(x *harness.X, res *rt.Result) {
 		if v.remote != s.reg[owner] {
 			x.Failf("context-remote-node", "handler for %s saw remote node %q, Register assigned %q to %s %s", v.envID, v.remote, s.reg[owner], owner, hist)
 		}
+		want := lib.Canon(lib.Msg(v.envID, "hi"))
+		if strings.HasSuffix(v.envID, "-q") {
+			want = lib.Canon(lib.Req(v.envID, "/x"))
+		}
+		if v.canon != want {
+			x.Failf("envelope-altered", "handler for %s of %s received %s, the client sent %s %s", v.envID, owner, v.canon, want, hist)
+		}
 		if v.local != lib.ServerNode.String() {
 			x.Failf("context-local-node", "handler for %s saw local node %q, server node is %q %s", v.envID, v.local, lib.ServerNode, hist)
 		}
@@ -231,16 +256,17 @@ func final(x *harness.X, res *rt.Result) {
 func main() {
 	opt := rt.Options{NoExplore: true, Horizon: 300 * time.Second, MaxSteps: 100000, BoundAll: true, NoTimerDeviation: true}
 	mk := func(name string, n int, mixed bool, q, t int) harness.Scenario {
-		return harness.Scenario{Name: name, Opt: opt, Quick: q, Thorough: t, Prune: false, Body: body(n, mixed), Final: final}
+		return harness.Scenario{Name: name, Opt: opt, Quick: q, Thorough: t, Prune: false, Body: body(n, mixed, strings.Contains(name, "intruder")), Final: final}
 	}
 	harness.Main(harness.Check{
 		Property: "C17",
 		Level:    "model_checking",
-		Rule:     "2 (thorough also 3) concurrent clients with distinct identities, each sending a message and a request command that the server's handlers answer through their Sender; Register assigns a distinct address per identity; transports: TCP over virtual pipes, optionally mixed with the in-process listener on the same server; all schedules within the deviation bound (delay bounding) from the first dial, handshakes included; distinct outcome = distinct observation log",
+		Rule:     "2 (thorough also 3) concurrent clients with distinct identities, each sending a message and a request command that the server's handlers answer through their Sender; Register assigns a distinct address per identity; one scenario adds a third connection that never gets a session and carries an object failing typed decoding; handlers compare the envelope they receive with what the owning client sent; transports: TCP over virtual pipes, optionally mixed with the in-process listener on the same server; all schedules within the deviation bound (delay bounding) from the first dial, handshakes included; distinct outcome = distinct observation log",
 		Assume:   []string{"state pruning off", "WebSocket listeners are not explored under the scheduler"},
 		Scenarios: []harness.Scenario{
 			mk("2clients/pipe", 2, false, 1, 2),
 			mk("2clients/pipe+inproc", 2, true, 1, 1),
+			mk("2clients+intruder/pipe", 2, false, 1, 2),
 			mk("3clients/pipe+inproc", 3, true, -1, 1),
 		},
 	})
